@@ -71,6 +71,9 @@ pub struct RunCfg {
     pub misroute_pct: u32,
     /// a provider that does not re-broadcast what a cleanup-off replica emits while applying remote data
     pub echo_suppress: bool,
+    /// undo profile, walk mode: number of captured steps built before the undo/redo walk (0 = off)
+    #[serde(default)]
+    pub undo_walk: u32,
 }
 
 // ------------------------------------------------------------------------------------------------
@@ -278,11 +281,12 @@ pub struct World {
     pub soft: Vec<Violation>,
     /// origin of the local transaction being executed
     pub cur_origin: Option<String>,
+    pub walk_need_clock: bool,
     pub cur_txn: Option<(usize, Option<String>)>,
 }
 
 pub fn is_soft(oracle: &str) -> bool {
-    oracle.ends_with("-empty-script") || oracle.ends_with("not-notified-deleted-boundary") || oracle.ends_with("not-notified-on-delete") || oracle.ends_with("offset-bytes-nonascii") || oracle.ends_with("-noop-retain-script") || oracle.ends_with("path-utf16-in-bytes-doc") || oracle.ends_with("-tombstone-dup") || oracle.ends_with("rebuild-stashed") || oracle.ends_with("restore-gappy")
+    oracle.ends_with("-empty-script") || oracle.ends_with("-map-redo-refused") || oracle.ends_with("not-notified-deleted-boundary") || oracle.ends_with("not-notified-on-delete") || oracle.ends_with("offset-bytes-nonascii") || oracle.ends_with("-noop-retain-script") || oracle.ends_with("path-utf16-in-bytes-doc") || oracle.ends_with("-tombstone-dup") || oracle.ends_with("rebuild-stashed") || oracle.ends_with("restore-gappy")
 }
 
 pub fn viol(oracle: &str, msg: String) -> Violation {
@@ -462,11 +466,12 @@ impl World {
             mon,
             cur_ops: Vec::new(),
             gen_steps: 0,
-            verbose: std::env::var("YSIM_VERBOSE").is_ok(),
+            verbose: crate::arena::verbose(),
             exposed: BitSet::new(),
             echo_ctx: None,
             soft: Vec::new(),
             cur_origin: None,
+            walk_need_clock: true,
             cur_txn: None,
         }
     }
@@ -588,6 +593,9 @@ impl World {
             v2: v2s.into_iter().next().unwrap(),
         });
         let uid = self.uids.len();
+        if self.verbose {
+            crate::arena::outside(|| eprintln!("   .. node {} emits uid {}: {:?}", n, uid, decode(&payload, Enc::V1)));
+        }
         let deps = self.nodes[n].hi.clone();
         let seen = self.interior(&self.nodes[n].lo);
         // concurrency statistic: uids neither seen by this one
@@ -815,6 +823,7 @@ impl World {
         }
         self.stats.delivers += 1;
         if self.verbose {
+            crate::arena::outside(|| {
             let u = decode(&msg.payload, Enc::V1);
             eprintln!(
                 "   .. deliver {:?} {:?} from {} to {} lo={:?}: {:?}\n{}",
@@ -826,6 +835,7 @@ impl World {
                 u,
                 yrs::verif::blocks_dump(self.nodes[n].doc.transact().store())
             );
+            });
         }
         let pre = crate::monitors::pre_txn(self, n);
         let pre_skips = yrs::verif::has_skips(self.nodes[n].doc.transact().store());
